@@ -44,20 +44,31 @@ type Native struct {
 // ---- strings
 
 type Str struct {
-	S string
-	B []*Term // non-nil => symbolic; len(B) is the length
+	S   string
+	B   []*Term // non-nil => symbolic; len(B) is the length
+	Opq bool    // opaque text (error messages built from symbolic data): never inspected
+}
+
+func opaqueUse(what string) {
+	panic(pathEnd{Kind: "unsupported", Msg: "opaque error-message text inspected by " + what})
 }
 
 func (s Str) Len() int {
+	if s.Opq {
+		opaqueUse("len")
+	}
 	if s.B != nil {
 		return len(s.B)
 	}
 	return len(s.S)
 }
 
-func (s Str) Concrete() bool { return s.B == nil }
+func (s Str) Concrete() bool { return s.B == nil && !s.Opq }
 
 func (in *Interp) strBytes(s Str) []*Term {
+	if s.Opq {
+		opaqueUse("byte access")
+	}
 	if s.B != nil {
 		return s.B
 	}
@@ -93,6 +104,9 @@ func (in *Interp) strFromBytes(bs []*Term) Str {
 }
 
 func (in *Interp) strByte(s Str, i int) *Term {
+	if s.Opq {
+		opaqueUse("index")
+	}
 	if s.B != nil {
 		return s.B[i]
 	}
@@ -100,6 +114,9 @@ func (in *Interp) strByte(s Str, i int) *Term {
 }
 
 func (in *Interp) strConcat(a, b Str) Str {
+	if a.Opq || b.Opq {
+		return Str{Opq: true}
+	}
 	if a.B == nil && b.B == nil {
 		return Str{S: a.S + b.S}
 	}
@@ -116,6 +133,9 @@ func (in *Interp) strConcat(a, b Str) Str {
 }
 
 func (in *Interp) strSlice(s Str, lo, hi int) Str {
+	if s.Opq {
+		opaqueUse("slice")
+	}
 	if s.B == nil {
 		return Str{S: s.S[lo:hi]}
 	}
@@ -124,6 +144,9 @@ func (in *Interp) strSlice(s Str, lo, hi int) Str {
 
 func (in *Interp) strEq(a, b Str) *Term {
 	ts := in.ts
+	if a.Opq || b.Opq {
+		opaqueUse("comparison")
+	}
 	if a.Len() != b.Len() {
 		return ts.False
 	}
@@ -160,6 +183,9 @@ func (in *Interp) strLess(a, b Str) *Term {
 }
 
 func (s Str) String() string {
+	if s.Opq {
+		return "<opaque>"
+	}
 	if s.B == nil {
 		return s.S
 	}
